@@ -24,7 +24,9 @@ def impl_fn(m, fn_id, deps_form, bounds, vis):
 
 def build_case(cid, rng, dynamic, force_async=False, no_send=False, probes=False):
     want_async = force_async or rng.random() < 0.45
-    t = tg.random_trait(rng, "Tr", dyn_safe=True, allow_async=want_async, with_async_trait=(dynamic and want_async), allow_generic_trait=False)
+    # async_trait is needed for dynamic selection and may also be used with static selection
+    with_at = want_async and (dynamic or (not no_send and rng.random() < 0.3))
+    t = tg.random_trait(rng, "Tr", dyn_safe=True, allow_async=want_async, with_async_trait=with_at, allow_generic_trait=False)
     t.supers = [s for s in t.supers if "Sized" not in s]
     t.const_pos = None
     if not want_async:
